@@ -553,7 +553,7 @@ class OpGen:
     def scaled_kinds(self):
         return [k for k in KINDS if self.info.has_scaling(k)]
 
-    def gen(self, nops):
+    def gen(self, nops, head_nd=0):
         rng, info = self.rng, self.info
         ops = []
         # start from random data in all six root vectors
@@ -562,6 +562,10 @@ class OpGen:
                 n = info.size(kind, '')
                 ops.append({'api': 'set_val', 'v': [kind, lin, ''], 'idx': None, 'scalar': False,
                             'vals': [rat(rng.choice(DY)) for _ in range(n)]})
+        for _ in range(head_nd):
+            g = self.g_set_var_nd(force=True)
+            if g is not None:
+                ops.append(g)
         # with complex storage: leave imaginary parts behind, so that the difference between
         # `_data` and `asarray()` (which hides them outside complex step) is visible afterwards
         if info.nl_alloc and rng.random() < 0.7:
@@ -580,7 +584,7 @@ class OpGen:
                 self.cs = False
         weights = [('set_val', 4), ('iarith', 14), ('op_arr', 6), ('op_vec', 7), ('set_vec', 4),
                    ('add_scal_vec', 6), ('dot', 5), ('norm', 4), ('get', 5), ('set_var', 9),
-                   ('abs_set_val', 8), ('iop', 6), ('set_vals', 2), ('add_to_slice', 3),
+                   ('abs_set_val', 8), ('set_var_nd', 9), ('iop', 6), ('set_vals', 2), ('add_to_slice', 3),
                    ('get_slice', 2), ('scale', 14), ('ctx', 5), ('cs', 7)]
         names = [w[0] for w in weights]
         wts = [w[1] for w in weights]
@@ -685,13 +689,92 @@ class OpGen:
         idx = self.idx(n) if flat else None
         if idx is not None and idx[0] == 'i':
             idx = ['l', [idx[1]]]
-        if idx is not None and idx[0] == 's' and idx[3] is not None and idx[3] < 0:
-            idx[3] = -idx[3]       # flat Indexer of a negative-step slice is outside this check
         vals, scalar = self.vals(v, self.idx_count(idx, n))
         how = 'setitem' if (not flat and idx is None and rng.random() < 0.5) else 'set_var'
         return {'api': 'set_var', 'v': v, 'name': self.rel(v, name), 'vals': vals, 'scalar': scalar,
                 'idx': idx, 'flat': flat, 'how': how,
                 'shaped': (not flat) and len(vals) == n and rng.random() < 0.5}
+
+    def g_set_var_nd(self, force=False):
+        """set_var with flat=False and a general NumPy index on the shaped variable; the value is
+        exact / broadcastable / same size but another shape (reshape fallback) / wrong size"""
+        rng = self.rng
+        for _ in range(30):
+            v, name = self.pick_named()
+            if v is None:
+                return None
+            var = self.info.var[name]
+            if len(var['shape']) >= 1 and var['size'] >= (2 if force else 1):
+                break
+        else:
+            return None
+        shape = tuple(var['shape'])
+
+        def comp(n, kind, k=None):
+            if kind == 'int':
+                c = rng.randrange(-n, n)
+                if self.malformed and rng.random() < 0.2:
+                    c = rng.choice([n, -n - 1])
+                return ['i', c]
+            if kind == 'slice':
+                return ['s', rng.choice([None, None, rng.randrange(-n, n + 1)]),
+                        rng.choice([None, None, rng.randrange(-n, n + 1)]),
+                        rng.choice([None, None, 1, 2, -1])]
+            k = k or rng.randrange(1, n + 1)
+            ps = rng.sample(range(n), min(k, n))          # reordered, no duplicates
+            ps = [q - n if rng.random() < 0.35 else q for q in ps]
+            if self.malformed and rng.random() < 0.2:
+                ps[rng.randrange(len(ps))] = rng.choice([n, n + 1, -n - 1])
+            return ['l', ps]
+        if len(shape) == 1:
+            kinds = rng.choice([['array'], ['array'], ['array'], ['slice'], ['int']])
+            if force:
+                kinds = ['array']
+            I = [comp(shape[0], kinds[0])]
+            tup = rng.random() < 0.2
+        else:
+            kinds = rng.choice([['array'], ['array'], ['int'], ['slice'], ['slice', 'array'],
+                                ['slice', 'array'], ['array', 'slice'], ['array', 'slice'],
+                                ['int', 'slice'], ['slice', 'int'], ['array', 'array'],
+                                ['slice', 'slice'], ['int', 'array'], ['array', 'int']])
+            if force:
+                kinds = rng.choice([['array'], ['slice', 'array'], ['array', 'slice'],
+                                    ['array', 'array']])
+            if kinds == ['array', 'array']:
+                k = rng.randrange(1, min(shape) + 1)
+                I = [comp(shape[0], 'array', k), comp(shape[1], 'array', k)]
+                if len(I[0][1]) != len(I[1][1]):
+                    return None
+            else:
+                I = [comp(shape[j], kd) for j, kd in enumerate(kinds)]
+            tup = len(I) > 1 or rng.random() < 0.2
+        op = {'api': 'set_var_nd', 'v': v, 'name': self.rel(v, name), 'I': I, 'tuple': tup}
+        try:
+            sshape = np.empty(shape)[nd_index(op)].shape
+        except Exception:
+            sshape = None
+        if sshape is None:
+            vkind, vshape = 'bad_index', (2,)
+        else:
+            m = shape_len(sshape)
+            cands = [('exact', sshape), ('exact', sshape), ('scalar', ()), ('wrong_size', (m + 1,))]
+            if len(sshape) == 2:
+                cands.append(('trailing', sshape[-1:]))
+                if sshape[0] > 1 and m > 1:
+                    cands += [('reshape', (m,))] * 4
+                if sshape[0] != sshape[1]:
+                    cands += [('reshape', (sshape[1], sshape[0]))] * 2
+            if len(sshape) == 1 and m >= 2:
+                cands += [('reshape', (m, 1))] * 5 + [('lead1', (1, m))]
+            if len(sshape) == 1 and m == 1:
+                cands += [('lead1', (1, 1))]
+            if force and any(c[0] == 'reshape' for c in cands):
+                cands = [c for c in cands if c[0] == 'reshape']
+            vkind, vshape = rng.choice(cands)
+        nv = shape_len(vshape)
+        op.update({'vals': [self.val(v) for _ in range(nv)], 'vshape': list(vshape), 'vkind': vkind,
+                   'pyscalar': vkind == 'scalar' and rng.random() < 0.5})
+        return op
 
     def g_abs_set_val(self):
         v, name = self.pick_named()
@@ -849,11 +932,9 @@ class Ctx:
         api = op['api']
         if api in ('set_val', 'iadd', 'isub', 'imul'):
             f = {'set_val': 'set', 'iadd': 'add', 'isub': 'sub', 'imul': 'mul'}[api]
-            idx = op['idx']
-            if idx is not None and idx[0] == 'i':
-                idx = ['l', [idx[1]]]
+            n = self.info.size(op['v'][0], op['v'][2])
             return [{'o': 'arith', 't': self.h(op['v']), 'f': f, 'raw': api == 'set_val',
-                     'src': {'vals': op['vals']}, 'idx': idx}]
+                     'src': {'vals': op['vals']}, 'idx': midx(op['idx'], n), '_idx': op['idx']}]
         if api == 'op_arr':
             return [{'o': 'arith', 't': self.h(op['v']), 'f': op['f'], 'raw': False,
                      'src': {'vals': op['vals']}, 'idx': None}]
@@ -873,14 +954,22 @@ class Ctx:
         if api == 'get':
             return [{'o': 'get', 't': self.h(op['v']), 'name': self.absname(op['v'], op['name'])}]
         if api == 'set_var':
-            return [{'o': 'named', 't': self.h(op['v']), 'name': self.absname(op['v'], op['name']),
-                     'f': 'set', 'raw': True, 'vals': op['vals'], 'idx': op['idx']}]
+            absn = self.absname(op['v'], op['name'])
+            n = self.info.var[absn]['size'] if absn in self.info.var else 0
+            return [{'o': 'named', 't': self.h(op['v']), 'name': absn,
+                     'f': 'set', 'raw': True, 'vals': op['vals'], 'idx': midx(op['idx'], n),
+                     '_idx': op['idx']}]
+        if api == 'set_var_nd':
+            absn = self.absname(op['v'], op['name'])
+            shape = tuple(self.info.var[absn]['shape'])
+            value = dec_np(op['vals']).reshape(tuple(op['vshape']))
+            sel, bvals = nd_resolve(shape, nd_index(op), value)
+            return [{'o': 'selset', 't': self.h(op['v']), 'name': absn, 'sel': sel, 'bvals': bvals,
+                     'vals': op['vals'], '_op': op, '_shape': list(shape)}]
         if api == 'abs_set_val':
-            idx = op['idx']
-            if idx is not None and idx[0] == 'i':
-                idx = ['l', [idx[1]]]
+            n = self.info.var[op['name']]['size']
             return [{'o': 'named', 't': self.h(op['v']), 'name': op['name'], 'f': 'set', 'raw': False,
-                     'vals': op['vals'], 'idx': idx}]
+                     'vals': op['vals'], 'idx': midx(op['idx'], n), '_idx': op['idx']}]
         if api == 'iop':
             return [{'o': 'iop', 't': self.h(op['v']), 'name': self.absname(op['v'], op['name']),
                      'f': op['f'], 'vals': op['vals']}]
@@ -1014,7 +1103,15 @@ class Shadow:
             return slice(None)
         if idx[0] == 'r':
             return slice(idx[1], idx[2])
+        if idx[0] == 's':
+            return slice(idx[1], idx[2], idx[3])
+        if idx[0] == 'i':
+            return np.array([idx[1]], dtype=int)
         return np.array(idx[1], dtype=int)
+
+    @staticmethod
+    def raw_idx(p):
+        return Shadow.np_idx(p['_idx'] if '_idx' in p else p['idx'])
 
     @staticmethod
     def apply(view, idx, f, val):
@@ -1041,11 +1138,26 @@ class Shadow:
                     val = c * self.view(src['vec'])
                 else:
                     val = self.view(src['vec'])
-                self.apply(self.view(p['t'], p['raw']), self.np_idx(p['idx']), p['f'], val)
+                self.apply(self.view(p['t'], p['raw']), self.raw_idx(p), p['f'], val)
                 return None
             if o == 'named':
                 v = self.var_view(p['t'], p['name'], p['raw'])
-                self.apply(v, self.np_idx(p['idx']), p['f'], dec_np(p['vals']))
+                self.apply(v, self.raw_idx(p), p['f'], dec_np(p['vals']))
+                return None
+            if o == 'selset':
+                # Vector.set_var as documented: NumPy item assignment on the shaped variable, a
+                # value with the right number of entries being reshaped to the selection
+                op = p['_op']
+                a = self.var_view(p['t'], p['name'], True).reshape(tuple(p['_shape']))
+                I = nd_index(op)
+                value = dec_np(op['vals']).reshape(tuple(op['vshape']))
+                try:
+                    a[I] = value
+                except Exception:
+                    try:
+                        a[I] = value.reshape(a[I].shape)
+                    except Exception:
+                        return {'err': 'shape'}
                 return None
             if o == 'iop':
                 tmp = self.var_view(p['t'], p['name'])
@@ -1222,11 +1334,7 @@ class Real:
     def pyidx(idx):
         if idx is None:
             return None
-        if idx[0] == 'r':
-            return slice(idx[1], idx[2])
-        if idx[0] == 'i':
-            return idx[1]
-        return list(idx[1]) if len(idx[1]) % 2 else np.array(idx[1], dtype=int)
+        return py_index(idx)
 
     def do(self, op):
         """Execute one harness step on the real vectors; return its output."""
@@ -1332,6 +1440,12 @@ class Real:
             else:
                 v.set_var(op['name'], val, self.pyidx(op['idx']), flat=op['flat'])
             return None
+        if api == 'set_var_nd':
+            value = dec_np(op['vals']).reshape(tuple(op['vshape']))
+            if op['vshape'] == [] and op.get('pyscalar'):
+                value = value.item()
+            v.set_var(op['name'], value, nd_index(op))
+            return None
         if api == 'abs_set_val':
             if not hasattr(v, '_abs_set_val'):
                 return {'skipped': True}
@@ -1434,7 +1548,8 @@ class C33(Property):
     required_theorems = [
         'C33_ops_pointwise', 'C33_ops_pointwise_nodup', 'C33_step_arith', 'C33_step_frame',
         'C33_run_shape', 'C33_cell_formulas',
-        'C33_views_tile', 'C33_views_disjoint', 'C33_named_write_local', 'C33_named_other_unchanged',
+        'C33_views_tile', 'C33_views_disjoint', 'C33_views_alias', 'C33_set_var_sel',
+        'C33_named_write_local', 'C33_named_other_unchanged',
         'C33_subvec_views_agree', 'C33_subvec_root_agree', 'C33_subvec_root_agree_step',
         'C33_subvec_refines',
         'C33_scale_cell_roundtrip', 'C33_scale_roundtrip', 'C33_scale_roundtrip_needs_nonzero',
@@ -1447,15 +1562,22 @@ class C33(Property):
             "that linear vectors are complex; force_alloc_complex on/off) and a history of 20-60 API "
             "calls on its real root and sub-system DefaultVectors. Non-trivial: the history changes "
             "data through a sub-system vector, a named view or a scaling call, on a root vector with "
-            "at least two variables; distinct by canonical case encoding.")
+            "at least two variables; distinct by canonical case encoding. The first ten histories of a "
+            "run start with five set_var calls using index arrays and a same-size value of another shape "
+            "(the reshape fallback).")
     assumptions = [
         "data are dyadic rationals and every scaler is a power of two; a history is compared only "
         "while all values stay multiples of 2^-20 below 2^20 (operands of products below 2^6), where "
         "IEEE double arithmetic is exact; the rest of such a history is not compared (counted as "
         "'truncated_inexact')",
         "get_norm is compared against sqrt of the exact sum of squares with relative tolerance 4e-16",
-        "only non-negative one-dimensional indices (int, slice, index list) are used on vectors; "
-        "NumPy index semantics in general belong to C05",
+        "NumPy's own index and broadcasting rules are not re-proved here (C05): negative entries and "
+        "general slices of 1-D indices are normalised, and for set_var with flat=False an N-D index "
+        "(ints, slices, index arrays, tuples mixing them) is resolved by NumPy to flat positions and, "
+        "when the value is directly assignable, to the broadcast values, before the model sees them; "
+        "what the model decides is where they land in the vector, the reshape fallback and the error "
+        "cases. The direct oracle performs the assignment itself with plain NumPy on its own copy. "
+        "N-D index arrays in set_var are duplicate-free",
         "_has_solver_ref of a vector object and the order of names are read from the real vectors",
     ]
     tolerance = {'get_norm': 4e-16}
@@ -1491,7 +1613,10 @@ class C33(Property):
             spec = gen_spec(rng)
             malformed = rng.random() < 0.2
             g = OpGen(rng, spec, malformed)
-            ops = g.gen(rng.choice([20, 30, 40]) if tier == 'quick' else rng.choice([20, 40, 60]))
+            # the first few histories start with index-array set_var calls that need the reshape
+            # fallback
+            ops = g.gen(rng.choice([20, 30, 40]) if tier == 'quick' else rng.choice([20, 40, 60]),
+                        head_nd=5 if k < 10 else 0)
             yield {'spec': spec, 'ops': ops, 'malformed': malformed}
 
     def run_impl(self, case):
@@ -1692,12 +1817,19 @@ class C33(Property):
                     b.append('on_linear_vec')
                 if cs:
                     b.append('under_cs')
+            if api == 'set_var_nd':
+                b.append('nd_index=' + ('(' if op['tuple'] else '') +
+                         ','.join({'r': 'slice', 's': 'slice', 'l': 'array', 'i': 'int'}[c[0]]
+                                  for c in op['I']) + (')' if op['tuple'] else ''))
+                b.append('nd_value=' + op['vkind'])
             if api == 'scale':
                 b.append('scale_%s_%s_%s' % ('norm' if op['norm'] else 'phys', op['mode'],
                                              'ln' if v[1] else 'nl'))
             idx = op.get('idx')
             if idx is not None:
-                b.append('idx=' + {'r': 'slice', 'l': 'list', 'i': 'int'}[idx[0]])
+                b.append('idx=' + {'r': 'slice', 's': 'gslice', 'l': 'list', 'i': 'int'}[idx[0]])
+                if (idx[0] == 'l' and any(k < 0 for k in idx[1])) or (idx[0] == 'i' and idx[1] < 0):
+                    b.append('idx_negative')
                 if idx[0] == 'l' and len(set(idx[1])) < len(idx[1]):
                     b.append('idx_duplicates')
         if any(x for k in KINDS for x in impl['srefs'] if impl['srefs'][x]):
